@@ -240,9 +240,64 @@ def scn_basic(T, case):
     T.prove("C12.basic_optimizer.reads_the_tracker_after_the_step", [e[0] for e in log if e[0] in ("run_step", "get")] == ["run_step", "get"] and ("get", "tracker-id", "results") in log)
 
 
+# ------------------------------------------------------------------------------------ a delivered result has reached the tracker
+def cases_delivery(tier):
+    for depth in (1, 2, 3):
+        for where in range(depth):
+            for what in ("best", "last"):
+                yield "depth=%d/tracker-in-plan-%d/%s" % (depth, where, what), {"depth": depth, "where": where, "what": what}
+
+
+def scn_delivery(T, case):
+    """'Delivered so far' includes the event during which a user callback aborts: an observer (it runs after every handler of the
+    emitting plan and of its ancestors) that has seen a result and raises must not be able to leave a tracker of any of those
+    plans without that result."""
+    from ropt.enums import EventType, OptimizerExitCode
+    from ropt.exceptions import OptimizationAborted
+    from ropt.plan import Event
+    from ropt.results import FunctionResults
+
+    MP, MC = "ropt.plan._plan", "ropt.plan._context"
+    if T.symbolic:
+        sh = T.shadow([MT, MU, MP, MC])
+        cls = T.under_contract(sh, MT, "DefaultTrackerHandler")
+        T.under_contract(sh, MT, "DefaultTrackerHandler.handle_event")
+        plan_cls, ctx_cls = T.under_contract(sh, MP, "Plan"), T.under_contract(sh, MC, "OptimizerContext")
+        T.under_contract(sh, MP, "Plan.emit_event")
+        T.under_contract(sh, MC, "OptimizerContext.call_observers")
+    else:
+        cls, plan_cls, ctx_cls = T.func(MT, "DefaultTrackerHandler"), T.func(MP, "Plan"), T.func(MC, "OptimizerContext")
+    seen = []
+
+    def observer(event):
+        seen.extend(event.data["results"])
+        raise OptimizationAborted(exit_code=OptimizerExitCode.USER_ABORT)
+
+    octx = ctx_cls(evaluator=None, plugin_manager=types.SimpleNamespace())
+    octx.add_observer(EventType.FINISHED_EVALUATION, observer)
+    plans, parent = [], None
+    for d in range(case["depth"]):
+        parent = plan_cls(octx, parent)
+        plans.append(parent)
+    src = uuid.uuid4()
+    trk = cls(plans[case["where"]], what=case["what"], constraint_tolerance=None, sources={src})
+    plans[case["where"]]._handlers = {trk.id: trk}
+    obj = T.real("objective", ())
+    res = FunctionResults(batch_id=None, metadata={}, evaluations=None, realizations=None, functions=types.SimpleNamespace(weighted_objective=obj))
+    ev = Event(event_type=EventType.FINISHED_EVALUATION, config=None, source=src, data={"results": (res,)})
+    try:
+        plans[-1].emit_event(ev)
+        aborted = False
+    except OptimizationAborted:
+        aborted = True
+    T.prove("C12.delivery.the_abort_of_the_observer_is_not_swallowed", aborted and seen == [res])
+    T.prove("C12.delivery.a_result_seen_by_an_observer_has_reached_every_tracker_of_the_plan_chain", trk["results"] is res)
+
+
 SCENARIOS = [
     Scenario("tracker_step_from_any_state", scn_step, cases_step, {"quick": 10, "thorough": 60}),
     Scenario("basic_optimizer_reports_tracked", scn_basic, cases_basic, {"quick": 1, "thorough": 1}),
+    Scenario("delivered_results_reach_the_tracker", scn_delivery, cases_delivery, {"quick": 1, "thorough": 3}),
 ]
 
 MANIFEST = {
